@@ -11,7 +11,7 @@
    collinear vertices, component order), symmetry and "== iff same region" are checked by the
    oracle on pools of variants (partial). *)
 From Coq Require Import List.
-From SV Require Import Spec.Spec Lemmas.Tolerance Lemmas.Fuel.
+From SV Require Import Spec.Spec Lemmas.Tolerance Lemmas.Fuel Lemmas.Safe.
 Open Scope Q_scope.
 
 Theorem C07_kinds : forall a b, shape_eq a b = Ok true -> same_kind a b.
@@ -36,6 +36,20 @@ Theorem C07_reflexive : forall j, all_lines j = true -> j <> [] ->
   clean j = Ok j -> jordan_eq j j = Ok true.
 Proof. exact jordan_eq_refl. Qed.
 Print Assumptions C07_reflexive.
+
+(* the tolerance comparisons underneath == are symmetric *)
+Theorem C07_point_eq_symmetric : forall p q, pt_eq p q = pt_eq q p.
+Proof. exact pt_eq_sym. Qed.
+Theorem C07_segment_eq_symmetric : forall a b, seg_eq a b = seg_eq b a.
+Proof. exact seg_eq_sym. Qed.
+(* independent of the start vertex: a cleaned polygon with pairwise different edges is == to
+   every rotation of its vertex list, in both directions *)
+Theorem C07_start_vertex : forall j k, all_lines j = true -> j <> [] ->
+  (forall s, In s j -> tol6 < norm2 (psub (last_pt s) (first_pt s))) ->
+  clean j = Ok j -> seg_distinct j ->
+  jordan_eq j (rotl k j) = Ok true /\ jordan_eq (rotl k j) j = Ok true.
+Proof. exact jordan_eq_rotl. Qed.
+Print Assumptions C07_start_vertex.
 
 (* regression for the repaired defect F8: two hollow squares at different places are not == *)
 Example C07_connected_regression :
